@@ -174,6 +174,8 @@ func c19Ops(l *c19Live) []c19Op {
 		add(c19Op{Kind: "ScanAddresses", Slot: i, Pw: right, Arg: "none-active"})
 		add(c19Op{Kind: "ScanAddresses", Slot: i, Pw: right, Arg: "last-active"})
 		add(c19Op{Kind: "ScanAddresses", Slot: i, Pw: right, Arg: "finder-error"})
+		add(c19Op{Kind: "ScanAddresses", Slot: i, Pw: right, Arg: "change-chain-only-active"})
+		add(c19Op{Kind: "ScanAddresses", Slot: i, Pw: right, Arg: "first-external-active"})
 		add(c19Op{Kind: "ScanAddresses", Slot: i, Pw: "wrong", Arg: "last-active"})
 		add(c19Op{Kind: "ScanAddresses", Slot: i, Pw: right, Arg: "last-active", RO: true})
 		add(c19Op{Kind: "UpdateWalletLabel", Slot: i, Arg: "label-2"})
@@ -387,8 +389,9 @@ func (l *c19Live) apply(op c19Op, check bool) (class string, vs []c19Violation) 
 			}
 			_, err = s.NewAddresses(l.id(op.Slot), l.password(op.Slot, op.Pw), wallet.OptionGenerateN(n))
 		case "ScanAddresses":
-			mode := map[string]string{"none-active": "none", "last-active": "last", "finder-error": "error"}[op.Arg]
-			_, err = s.ScanAddresses(l.id(op.Slot), l.password(op.Slot, op.Pw), 2, fakeTF{mode})
+			mode := map[string]string{"none-active": "none", "last-active": "last", "finder-error": "error", "change-chain-only-active": "second-call-last", "first-external-active": "first-call-first"}[op.Arg]
+			calls := 0
+			_, err = s.ScanAddresses(l.id(op.Slot), l.password(op.Slot, op.Pw), 2, fakeTF{mode, &calls})
 		case "UpdateWalletLabel":
 			err = s.UpdateWalletLabel(l.id(op.Slot), op.Arg)
 		case "EncryptWallet":
